@@ -490,7 +490,26 @@ func genWorldPlan(prop string, master uint64, run int) Plan {
 		b.g.idna = 2 // IDNA hosts are judged with the implementation's own domain-to-ASCII (model.ToASCIIHook)
 		u := b.parse(r.Chance(1, 6)) // "every parsed URL": also one parsed against a base string
 		sw := setterWeights(r, []int{3, 2, 2, 3, 3, 3, 3, 2, 2})
+		// relatives: further URLs are derived from the ones at hand (a reference resolved against the
+		// live object, a copy) and every one of them gets setter calls of its own; each must end up
+		// where the standard's steps, applied to ITS sequence, lead - whatever was done to its relatives
+		relatives := r.Chance(1, 5)
 		for i := 0; i < n; i++ {
+			if relatives && r.Chance(1, 5) {
+				var d int
+				if r.Chance(2, 3) {
+					d = b.resolve(u, r.Weighted([]int{3, 1, 2}))
+				} else {
+					d = b.clone(u)
+				}
+				if r.Chance(1, 2) {
+					u = d
+				}
+				continue
+			}
+			if relatives && r.Chance(1, 4) {
+				u = b.pickU()
+			}
 			b.set(u, r.Weighted(sw))
 		}
 	case "C11":
